@@ -27,6 +27,16 @@ var hostileGroups = [][]string{
 	{"1", "a.1", "q1"},
 }
 
+// names of which one is a plain string prefix of the other, with NO separator in between: outside the
+// dotted-prefix trigger (F21), so the store must keep them apart (scan prefix msg.<q>. with its trailing dot)
+var plainPrefixGroups = [][]string{
+	{"a", "ab"},
+	{"jobs", "jobs2"},
+	{"q1", "q12"},
+	{"b", "b0"},
+	{"x-y", "x-y-z"},
+}
+
 func pick(r *hx.Rng, a []string) string { return a[r.Intn(len(a))] }
 
 // caseNames picks the 2..4 distinct names of one case.
@@ -41,6 +51,12 @@ func caseNames(r *hx.Rng, safe bool) []string {
 		}
 	}
 	pool := hostilePool
+	if r.Chance(1, 3) {
+		// both modes: a pair that differs by a plain suffix
+		g := plainPrefixGroups[r.Intn(len(plainPrefixGroups))]
+		add(g[0])
+		add(g[1])
+	}
 	if safe {
 		pool = safePool
 	} else if r.Chance(3, 4) {
@@ -526,10 +542,38 @@ func genMsgCase(r *hx.Rng, engineKind string, safe bool, iso bool, length int) (
 			g.opQuery()
 		}
 	}
-	// fixed suffix: flush, show everything, restart, show again
+	// fixed suffix: flush, show everything (listing, length, iteration from a stored id), restart, show again,
+	// then purge the first queue and show every queue again, before and after one more restart
 	g.ops = append(g.ops, "T", "DUMP", "PEND")
+	g.flush(g.pA, g.pU, g.pD)
+	g.resetPending()
+	for _, n := range g.names {
+		g.ops = append(g.ops, "R:"+hexs(n)+":0", "L:"+hexs(n))
+		for k := range g.eng {
+			if k.q == n && g.engine != "bunt" {
+				// the smallest stored id of the queue, for a deterministic op list
+				min := k.id
+				for k2 := range g.eng {
+					if k2.q == n && k2.id < min {
+						min = k2.id
+					}
+				}
+				g.ops = append(g.ops, "F:"+hexs(n)+":"+strconv.FormatUint(min, 10)+":0")
+				break
+			}
+		}
+	}
+	g.ops = append(g.ops, "K", "DUMP")
 	for _, n := range g.names {
 		g.ops = append(g.ops, "R:"+hexs(n)+":0")
+	}
+	g.ops = append(g.ops, "PEND")
+	for _, n := range g.names {
+		g.ops = append(g.ops, "F:"+hexs(n)+":0:0")
+	}
+	g.ops = append(g.ops, "P:"+hexs(g.names[0]), "DUMP", "PEND")
+	for _, n := range g.names {
+		g.ops = append(g.ops, "F:"+hexs(n)+":0:0", "L:"+hexs(n))
 	}
 	g.ops = append(g.ops, "K", "DUMP")
 	for _, n := range g.names {
